@@ -3,7 +3,7 @@ from harness import k_selectors
 
 
 def obligations(tier):
-    return [k_selectors.obligation_select(tier), k_selectors.obligation_measures(tier)]
+    return [k_selectors.obligation_select(tier), k_selectors.obligation_select_multi(tier), k_selectors.obligation_measures(tier)]
 
 
 def post(tier):
